@@ -15,17 +15,17 @@ MUTATORS = {'push', 'pop', 'insert', 'remove', '__setitem__', '__setitem_with_op
 #  L list of symbolic ints (length 0..3)   N nested list [[a],[b, c]]   D dict {'p': a, 'q': [b]}   S short concrete str
 #  l n d: the same shapes with concrete elements (for builtins that format their argument: formatting realises symbolic ints)
 #  I symbolic int   Z small concrete int   F1 one-arg function   F2 two-arg function   K key function   B symbolic bool
-#  U None   E Decimal
+#  U None   E Decimal   H host mapping with __missing__ (collections.defaultdict)   X a key that is absent
 SHAPES = {
-    'len': ['L', 'D', 'N'], 'int': ['I', 'E'], 'float': ['Z'], 'str': ['l', 'd', 'n'], 'dict': ['', 'D'], 'list': ['LD', 'N'],
+    'len': ['L', 'D', 'N', 'H'], 'int': ['I', 'E'], 'float': ['Z'], 'str': ['l', 'd', 'n'], 'dict': ['', 'D'], 'list': ['LD', 'N'],
     'startswith': ['SS', 'LS'], 'endswith': ['SS'], 'lower': ['S', 'L'], 'upper': ['S'], 'strip': ['S'], 'replace': ['SSS', 'LSS'],
     'match': ['LS', 'DS'], 'match_groups': ['LS'], 'match_all': ['LS', 'DS'],
-    'pretty': ['d', 'l', 'n', 'E', 'dS', 'lS'], 'keys': ['D'], 'values': ['D'], 'items': ['D'], 'sum': ['L', 'N', 'D'],
-    'get': ['DS', 'DSL', 'DSN'], '__getitem__': ['LZ', 'DS', 'NZ', 'LI'],
-    'map': ['LF1', 'NF1', 'DF2', 'SF1'], 'filter': ['LF1', 'NF1'], 'reduce': ['LF2', 'NF2'], 'join': ['l', 'lS', 'n'], 'split': ['S', 'SS', 'LS'],
+    'pretty': ['d', 'l', 'n', 'E', 'dS', 'lS'], 'keys': ['D', 'H'], 'values': ['D', 'H'], 'items': ['D', 'H'], 'sum': ['L', 'N', 'D'],
+    'get': ['DS', 'DSL', 'DSN', 'HS', 'HX', 'HXL'], '__getitem__': ['LZ', 'DS', 'NZ', 'LI'],
+    'map': ['LF1', 'NF1', 'DF2', 'SF1', 'HF2'], 'filter': ['LF1', 'NF1'], 'reduce': ['LF2', 'NF2'], 'join': ['l', 'lS', 'n'], 'split': ['S', 'SS', 'LS'],
     'round': ['Z', 'E', 'EZ'], 'floor': ['Z', 'E'], 'ceil': ['Z', 'E'], 'abs': ['I', 'E'], 'min': ['L', 'II', 'N'], 'max': ['L', 'II', 'N'],
     'rand': ['', 'L', 'N', 'II'],
-    'sorted': ['L', 'LK', 'LKB', 'LUB', 'N', 'D', 'DF2', 'DUB'], 'reversed': ['L', 'N', 'S'], 'enumerate': ['L', 'N', 'D'],
+    'sorted': ['L', 'LK', 'LKB', 'LUB', 'N', 'D', 'DF2', 'DUB', 'H'], 'reversed': ['L', 'N', 'S'], 'enumerate': ['L', 'N', 'D', 'H'],
     'shuffle': ['L', 'N'], 'index_of': ['LI', 'NL'],
 }
 GENERIC = ['L', 'N', 'D', 'LL', 'LI', 'DS', 'LF1']
@@ -56,6 +56,11 @@ def _args(shape, a, b, c, n, flag):
             out.append([[3], [1, 2]])
         elif k == 'd':
             out.append({'p': 3, 'q': [1]})
+        elif k == 'H':
+            import collections
+            out.append(collections.defaultdict(list, {'p': a, 'q': [b]}))      # host mapping with __missing__
+        elif k == 'X':
+            out.append('absent')
         elif k == 'S':
             out.append('a,b')
         elif k == 'I':
